@@ -18,6 +18,7 @@ Definition Held (LF : log) (b : nat) (c : nat) : Prop :=
 
 (* what a completed find guarantees (C10_result_sound) *)
 Definition frec_ok (LF : log) (f : frec) : Prop :=
+  (forall l, (f_view f l <= f_len f)%nat) /\
   match f_res f with
   | None => True
   | Some (e, ix) =>
@@ -62,11 +63,20 @@ Lemma RInv_goto LF (Lc : log) r V b pc : (1 <= b)%nat -> (forall l, (b <= V l)%n
 Proof. intros. constructor; cbn [goto r_base r_view r_todo r_pc r_done]; assumption. Qed.
 
 Lemma RInv_finish LF (Lc : log) r V b k res mj clk len : (1 <= b)%nat -> (forall l, (b <= V l)%nat /\ (V l <= length Lc)%nat) ->
-  Forall item_ok (r_todo r) -> Forall (frec_ok LF) (r_done r) ->
-  frec_ok LF (mk_frec k res (r_start r) clk (r_base0 r) mj len V) -> RInv LF Lc (finish r V b k res mj clk len).
+  Forall item_ok (r_todo r) -> Forall (frec_ok LF) (r_done r) -> len = length Lc ->
+  match res with
+  | None => True
+  | Some (e, ix) =>
+      lastval LF (LPrefix e) = Some (VNum (pfxP k 15)) /\ lastval LF (LDepth e) = Some (VNum 15) /\
+      ix = idxP k 15 /\
+      exists tm mm mv, mj = Some tm /\ nth_error LF tm = Some mm /\ mloc mm = LMask e /\ mval mm = VNum mv /\
+        N.testbit mv ix = true /\
+        exists tc mc v, nth_error LF tc = Some mc /\ mloc mc = LSlot e ix /\ mval mc = VSlot k v /\
+          (tc < V (LSlot e ix))%nat /\ ((tc < tm)%nat \/ tc = S tm)
+  end -> RInv LF Lc (finish r V b k res mj clk len).
 Proof.
-  intros. constructor; cbn [finish r_base r_view r_todo r_pc r_done]; try assumption; [exact Logic.I|].
-  constructor; assumption.
+  intros Hb HV Ht Hd -> Hres. constructor; cbn [finish r_base r_view r_todo r_pc r_done]; try assumption; [exact Logic.I|].
+  constructor; [|assumption]. split; [cbn [f_view f_len]; intros l; apply HV|]. exact Hres.
 Qed.
 
 Section Reader.
@@ -205,7 +215,7 @@ Section Reader.
         * apply RInv_goto; cbn [r_todo r_done]; [lia|exact HV'|exact Ht| |exact Hdone].
           cbn [pc_ok]. split; [exact Hk|]. exists j, m. split; [exact GF|]. split; [unfold ptr_target; rewrite El, Ev; reflexivity|].
           unfold new_base. rewrite A1, (Hrel c eq_refl). cbn [andb]. lia.
-        * apply RInv_finish; cbn [r_todo r_done]; [lia|exact HV'|exact Ht|exact Hdone|]. unfold frec_ok. cbn [f_res]. exact Logic.I.
+        * apply RInv_finish; cbn [r_todo r_done]; [lia|exact HV'|exact Ht|exact Hdone|reflexivity|]. exact Logic.I.
       + (* external synchronisation *)
         inversion Htodo as [|? ? _ Ht]; subst.
         constructor; cbn [r_base r_view r_todo r_pc r_done];
@@ -218,7 +228,7 @@ Section Reader.
       pose proof (node_ok_depth _ Okn) as Hd.
       rewrite pfx_of_ok by (try exact Hk; lia).
       destruct (negb (pfxP k (n_depth nd) =? n_prefix nd)) eqn:Epx.
-      + apply RInv_finish; [exact Hb|exact HV|exact Htodo|exact Hdone|]. unfold frec_ok. cbn [f_res]. exact Logic.I.
+      + apply RInv_finish; [exact Hb|exact HV|exact Htodo|exact Hdone|reflexivity|]. exact Logic.I.
       + apply negb_false_iff, N.eqb_eq in Epx. rewrite idx_of_ok by exact Hd.
         apply RInv_goto; [exact Hb|exact HV|exact Htodo| |exact Hdone].
         destruct (n_depth nd =? ll) eqn:Ed; cbn [pc_ok].
@@ -234,8 +244,7 @@ Section Reader.
       destruct (mval m) as [|mv|] eqn:Ev; try contradiction.
       pose proof (view_after Lc (r_view r) (r_base r) (is_acq (o_f_mask o)) (LMask c) j m HV Hj) as HV'.
       pose proof (new_base_ge (is_acq (o_f_mask o)) (r_base r) j m) as Hbge.
-      apply RInv_finish; [lia|exact HV'|exact Htodo|exact Hdone|].
-      unfold frec_ok. cbn [f_res f_key f_mask f_view].
+      apply RInv_finish; [lia|exact HV'|exact Htodo|exact Hdone|reflexivity|].
       destruct (N.testbit mv ix) eqn:B; [|exact Logic.I].
       split; [exact Lp|]. split; [exact Ld|]. split; [exact Eix|].
       exists j, m, mv. split; [reflexivity|]. split; [exact GF|]. split; [exact El|]. split; [exact Ev|]. split; [exact B|].
@@ -272,7 +281,7 @@ Section Reader.
       + apply RInv_goto; [lia|exact HV'|exact Htodo| |exact Hdone].
         cbn [pc_ok]. split; [exact Hk|]. exists j, m. split; [exact GF|]. split; [unfold ptr_target; rewrite El, Ev; reflexivity|].
         unfold new_base. rewrite A3. cbn [andb]. destruct (mrel m) eqn:Er; [lia|exact (Hnr eq_refl)].
-      + apply RInv_finish; [lia|exact HV'|exact Htodo|exact Hdone|]. unfold frec_ok. cbn [f_res]. exact Logic.I.
+      + apply RInv_finish; [lia|exact HV'|exact Htodo|exact Hdone|reflexivity|]. exact Logic.I.
     - contradiction.
   Qed.
 End Reader.
